@@ -27,7 +27,9 @@ RULE = ("part1: BFS over all operation histories (install at now+{-1,0,1,2}, ins
         "TaskManager, deduplicated on (per task: scheduled flag, taskTime-now; heap order); a state is non-trivial/distinct "
         "by that canonical form; part2: every (interval, offset, install instant, base) of the grid, 50 periods; "
         "part3: every (batch size<=6, raising subset, child-deferring member, due tasks raising subset, loop kind); "
-        "part4: every (installation order of n distinct due times, suspended task(s), moved task)")
+        "part4: every (installation order of n distinct due times, suspended task(s), moved task); in parts 1 and 2 the "
+        "loop is also polled half a microsecond before every due time it advances to and at the last float below it, where "
+        "nothing may fire")
 ASSUMPTIONS = [
     "single thread; the only clock the scheduler reads is bacpypes.task._time (rebound to a virtual clock)",
     "core.run() is driven with asyncore.loop replaced by a stub that advances the virtual clock by the requested timeout",
@@ -137,6 +139,14 @@ def p1_run(n, chain, hist):
                 if kind == "next":
                     nd = ref.next_due()
                     if nd is not None and nd > ref.now:
+                        # a hair before the due time (half a microsecond, and the last float below it) nothing may fire
+                        for hair in (nd - 5e-7, math.nextafter(nd, -math.inf)):
+                            if ref.now < hair < nd:
+                                vclock.clock.now = hair
+                                before = len(log)
+                                core.run_once()
+                                if len(log) != before:
+                                    return ("fired-before-its-time", step, hair, nd), None
                         ref.now = nd
                 else:
                     ref.now += 1.0
@@ -272,8 +282,14 @@ def p2_case(interval_ms, offset_ms, t_install, periods=50, prior=None):
         if not tmgr.tasks:
             return ("recurring-task-not-rearmed", len(log)), log
         when = tmgr.tasks[0][0]
-        if when < vclock.clock.now - 1e-12:
-            pass
+        # a hair before the slot (half a microsecond, and the last float below it) the task may not fire
+        for hair in (when - 5e-7, math.nextafter(when, -math.inf)):
+            if vclock.clock.now < hair < when:
+                vclock.clock.now = hair
+                before = len(log)
+                core.run_once()
+                if len(log) != before:
+                    return ("fired-before-its-time", hair, when), log
         vclock.clock.now = max(vclock.clock.now, when)
         before = len(log)
         core.run_once()
